@@ -23,6 +23,12 @@ func c01Corpus(add func(kind, name string, data []byte)) {
 		add("corpus:jwt-array-member", "t.jwt", c01Token(0, baseH, w, sig))
 		add("corpus:jwt-array-member", "t.jwt", c01Token(0, w, baseP, sig))
 	}
+	// C01-jceks-deserializer (fixed): the Java deserializer behind JCEKS secret-key entries panicked on an array
+	// without a class description (nil dereference), a negative TC_BLOCKDATALONG length and a TC_LONGSTRING length
+	// with the top bit set (makeslice: len out of range)
+	for _, w := range [][]byte{{0x75, 0x70}, {0x7a, 0xff, 0xff, 0xff, 0xff}, {0x7c, 0x80, 0, 0, 0, 0, 0, 0, 0}, {0x7c, 0x9e, 0x00, 0xed, 0x63, 0xcd, 0xae, 0xa0, 0x5f}} {
+		add("corpus:jceks-deserializer:java", "k.jceks", c01JCE(c01Cat([]byte{0xac, 0xed, 0, 5}, w)))
+	}
 	// explicit parameters of a table curve whose base point has the uncompressed prefix and is too short
 	cv := c01Curves()[0]
 	for _, b := range [][]byte{c01Cat([]byte{4}, cv.gx[:16]), {4}, c01Cat([]byte{4}, cv.gx)} {
@@ -203,7 +209,10 @@ func c01Structured(c *Ctx, r *Rng, seeds []seedInput, add func(kind, name string
 		}
 	}
 
+	c01GenJava(c, r, add)
 	c01GenPGP(c, r, seeds, add)
+	c01GenDER(c, r, add)
+	c01GenSSH1(c, r, add)
 	c01GenUUID(c, r, add)
 	c01GenPEM(c, r, seeds, add)
 }
